@@ -237,6 +237,46 @@ def r_none(ctx):
            "`if %s is None:` returns before any value is used" % v if guard is not None else
            "no `if %s is None: ... return` after the first solve: a failed solve continues to value/dual extraction" % v, loc(root, first))
     if guard is not None:
+        # between the solve and the None test the value may be None: it is only stored, printed or formatted with a plain placeholder
+        unsafe = []
+        for n0 in ast.walk(root):
+            if not (isinstance(n0, ast.Name) and n0.id == v and isinstance(n0.ctx, ast.Load)):
+                continue
+            if not (first.lineno < n0.lineno < guard.lineno):
+                continue
+            par = n0._parent
+            why = None
+            if isinstance(par, (ast.BinOp, ast.UnaryOp)) or (isinstance(par, ast.Compare) and not all(isinstance(o, (ast.Is, ast.IsNot, ast.Eq, ast.NotEq)) for o in par.ops)):
+                why = "arithmetic / ordering on it"
+            elif isinstance(par, (ast.Subscript, ast.Attribute)) and par.value is n0:
+                why = "`%s`" % src(par)
+            elif isinstance(par, ast.FormattedValue) and par.format_spec is not None:
+                why = "an f-string format specification"
+            elif isinstance(par, ast.Call) and call_name(par) == "format" and isinstance(par.func, ast.Attribute) and isinstance(par.func.value, ast.Constant) \
+                    and isinstance(par.func.value.value, str) and n0 in par.args:
+                import string
+                idx = par.args.index(n0)
+                auto = 0
+                try:
+                    for lit, field, spec, conv in string.Formatter().parse(par.func.value.value):
+                        if field is None:
+                            continue
+                        if field == "":
+                            k = auto
+                            auto += 1
+                        else:
+                            head = field.split(".")[0].split("[")[0]
+                            k = int(head) if head.isdigit() else None
+                        if k == idx and spec:
+                            why = "the format specification `{:%s}`" % spec
+                except ValueError:
+                    pass
+            if why:
+                unsafe.append((n0, why))
+        ctx.ob("R-NONE", "PEP.%s::value untouched before the None test" % root.name, not unsafe,
+               "before `if %s is None` the solver value is only stored / printed" % v if not unsafe else
+               "`%s` may be None (no finite optimum) when line %d applies %s to it: TypeError instead of returning None"
+               % (v, unsafe[0][0].lineno, unsafe[0][1]), loc(root, unsafe[0][0] if unsafe else guard))
         rets = [r for r in ast.walk(guard) if isinstance(r, ast.Return)]
         bad = [r for r in rets if not (r.value is None or src(r.value) in (v, "None"))]
         ctx.ob("R-NONE", "PEP.%s::none-return-value" % root.name, not bad,
@@ -344,11 +384,50 @@ def r_options(ctx):
     that tests it (the dispatch is closed), whatever the other tests do."""
     from ..absint import option_outcomes, literal_test, string_literals_compared, bool_decider
     n = 0
-    for fn in ctx.repo.all_functions():
+    fns = list(ctx.repo.all_functions())
+    # documented values of an option, by parameter name: every literal the parameter (or its lower-cased form) is compared with anywhere
+    documented = {}
+    for fn in fns:
+        for prm in params_of(fn):
+            for subj in (prm, prm + ".lower()"):
+                l0, _ = string_literals_compared(fn, subj)
+                if l0:
+                    documented.setdefault(prm, set()).update(l0)
+
+    def validated_by_callers(fn, subject):
+        """a private function whose every caller passes its own parameter of the same name after a closed, exact dispatch on it"""
+        if not fn.name.startswith("_"):
+            return False
+        callers = [(f2, c) for f2 in fns for c in ast.walk(f2) if isinstance(c, ast.Call) and call_name(c) == fn.name and f2 is not fn]
+        if not callers:
+            return False
+        for f2, c in callers:
+            if subject not in params_of(f2) or not any(isinstance(a, ast.Name) and a.id == subject for a in list(c.args) + [k.value for k in c.keywords]):
+                return False
+            l2, _ = string_literals_compared(f2, subject)
+            if l2 != documented.get(subject, set()) or len(l2) < 2:
+                return False
+            o2 = option_outcomes(f2.body, mk_for(subject)("\0none-of-the-documented-values"))
+            if any(t0 and k0 in ("next", "return") for (k0, t0) in o2):
+                return False
+        return True
+
+    def mk_for(subject):
+        def mk(value):
+            def atom(t):
+                r = literal_test(t, subject, value)
+                if r is not None:
+                    return r
+                if " ".join(src(t).split()) == subject:
+                    return bool(value)
+                return None
+            return bool_decider(atom)
+        return mk
+    for fn in fns:
         for subject in option_subjects(fn):
             lits, names = string_literals_compared(fn, subject)
             plain = {l for l in lits if not l.endswith("*")}
-            if len(lits) < 2:
+            if len(lits) < 2 and not (len(lits) == 1 and subject in params_of(fn) and len(documented.get(subject, ())) >= 2):
                 continue
             n += 1
 
@@ -366,7 +445,7 @@ def r_options(ctx):
             unknown = "\0none-of-the-documented-values"
             outs = option_outcomes(fn.body, mk(unknown))
             leak = sorted(k for (k, touched) in outs if touched and k in ("next", "return"))
-            ok = not leak
+            ok = not leak or validated_by_callers(fn, subject)
             key = "%s::%s::dispatch on %s" % (fn._module.rel, qualname(fn), subject)
             ctx.ob("R-OPTIONS", key, ok,
                    "a value other than %s reaches a raise on every path that tests the option" % sorted(lits) if ok else
